@@ -1,6 +1,7 @@
 package props
 
 import (
+	"encoding/binary"
 	"fmt"
 	"math/big"
 	"strings"
@@ -28,7 +29,7 @@ func init() {
 	simkit.Register(&simkit.Prop{
 		ID:   "C42",
 		Desc: "pre-executing invoke / deploy / EIP-155 transactions through every read-only interface of the ledger leaves the disk, all four stores, height, block hash and event records untouched - also between ExecuteBlock and SubmitBlock of a commit, after a restart, and compared with a twin ledger that never pre-executed anything",
-		Rule: "a run = a solo ledger plus a twin that receives the same blocks and no pre-execution; setup deploys a NeoVM storage contract and an EVM universal contract and funds two EVM senders; then 4..22 tape-chosen operations: pre-execute a generated transaction (native ONG/ONT transfer / transferV2 / approve, NeoVM storage put / delete, a throwing script, a deploy, an EIP-155 value transfer, SSTORE, LOG, CALL with value, SELFDESTRUCT, SSTORE+REVERT, creation) through PreExecuteContract, PreExecuteContractWithParam, PreExecuteContractBatch (atomic and not, 1..3 transactions), PreExecuteEIP155, PreExecuteEip155Tx or TraceEip155Tx, on the driving goroutine or handed to a second goroutine; commit a block (empty, or carrying the transactions pre-executed before) with up to 2 pre-executions between ExecuteBlock and SubmitBlock; clean restart. Around every pre-execution: the count of mutating SimDisk calls on database journal files (every logical LevelDB write appends to one; table compactions that goleveldb starts after fruitless seeks are allowed and counted as a probe), height, current block hash and the logical digest of block / state / event / cross-chain store must be unchanged; after every commit and restart all four stores must equal the twin's. non-trivial = at least 3 pre-executions of state-writing transactions that returned a result, one of them between ExecuteBlock and SubmitBlock, and at least one of the pre-executed transactions later changed contract state when committed in a block; distinct = distinct event-trace hash",
+		Rule: "a run = a solo ledger plus a twin that receives the same blocks and no pre-execution; setup deploys a NeoVM storage contract and an EVM universal contract and funds two EVM senders; then 4..22 tape-chosen operations: pre-execute a generated transaction (native ONG/ONT transfer / transferV2 / approve, NeoVM storage put / delete, a throwing script, a deploy, an EIP-155 value transfer, SSTORE, LOG, CALL with value, SELFDESTRUCT, SSTORE+REVERT, creation) through PreExecuteContract, PreExecuteContractWithParam, PreExecuteContractBatch (atomic and not, 1..3 transactions), PreExecuteEIP155, PreExecuteEip155Tx or TraceEip155Tx, on the driving goroutine or handed to a second goroutine; commit a block (empty, or carrying the transactions pre-executed before) with up to 2 pre-executions between ExecuteBlock and SubmitBlock; clean restart. Around every pre-execution: the count of mutating SimDisk calls on database journal files (every logical LevelDB write appends to one; table compactions that goleveldb starts after fruitless seeks are allowed and counted as a probe), height, current block hash and the logical digest of block / state / event / cross-chain store must be unchanged; after every commit and restart all four stores must equal the twin's; parties also spend their own ONT (all of it, part of it, more than they have) and every committed ONT transfer must succeed or fail, and the parties' balances must read, as a model of the COMMITTED transfers alone says (the twin shares the process, so state leaked by a pre-execution into process-global memory would hit both ledgers alike). non-trivial = at least 3 pre-executions of state-writing transactions that returned a result, one of them between ExecuteBlock and SubmitBlock, and at least one of the pre-executed transactions later changed contract state when committed in a block; distinct = distinct event-trace hash",
 		Real: []string{"core/store/ledgerstore (PreExecuteContract, PreExecuteContractWithParam, PreExecuteContractBatch, PreExecuteEIP155, PreExecuteEip155Tx, TraceEip155Tx, ExecuteBlock, SubmitBlock, recovery)", "smartcontract + NeoVM + native ONT/ONG", "smartcontract/service/evm + vm/evm (incl. StructLogger tracer)", "smartcontract/storage CacheDB/StateDB + overlaydb", "event store, goleveldb on SimDisk"},
 		Stub: []string{"solo block producer (harness builds/signs blocks like consensus/solo)", "RPC layer: the ledger methods are called directly with the arguments http/ethrpc and http/base would pass", "wasm JIT (stub archive; no wasm transactions)"},
 		Assumptions: []string{
@@ -62,12 +63,16 @@ type c42Subject struct {
 	writes  bool // a successful execution writes contract state
 	preOK   bool // some pre-execution returned a result for it
 	commits bool // may be put into a block
+	// ONT transfer subjects: what the balance model needs
+	ontFrom, ontTo common.Address
+	ontAmt         uint64
 }
 
 type c42Run struct {
 	c        *simkit.Ctx
 	m, w     *world.Chain
 	parties  []*account.Account
+	ont      map[common.Address]uint64 // ONT of parties[1:] by the committed transfers
 	keys     []*c07Key
 	evmNonce map[ethcomm.Address]uint64
 	u        ethcomm.Address // universal contract
@@ -116,6 +121,7 @@ func runC42(c *simkit.Ctx) {
 		m, err := world.TransferTx("ont", r.m.Book.Address, r.parties[1].Address, 1000, 0, 20000, r.next(), r.m.Book.Address)
 		c.Must(err, "ont transfer")
 		setup = append(setup, r.sealBy(m, r.m.Book))
+		r.ont = map[common.Address]uint64{r.parties[1].Address: 1000, r.parties[2].Address: 0}
 		r.neo = common.AddressFromVmCode(c05ContractCode(c, 0))
 		setup = append(setup, r.deployTx(0))
 		r.deployID = 1
@@ -181,13 +187,23 @@ func (r *c42Run) genSubject() *c42Subject {
 		amt := uint64(1 + t.Choose(1000))
 		var m *types.MutableTransaction
 		var err error
-		switch t.Choose(4) {
+		sub := t.Choose(4)
+		if t.Prob(1, 3) {
+			// a party spends its own ONT: all of it (the balance entry is deleted), part of it, or more than it has
+			from = r.parties[1+t.Choose(2)]
+			to = r.parties[t.Choose(3)].Address
+			bal := r.ont[from.Address]
+			amt = []uint64{bal, bal, 1 + uint64(t.Choose(100)), bal + 1}[t.Choose(4)]
+			sub = 1
+		}
+		switch sub {
 		case 0:
 			m, err = world.TransferTx("ong", from.Address, to, amt, 0, 20000, r.next(), from.Address)
 			s.desc = fmt.Sprintf("ong.transfer BK->%s:%d", tokShort(to), amt)
 		case 1:
 			m, err = world.TransferTx("ont", from.Address, to, amt, 0, 20000, r.next(), from.Address)
-			s.desc = fmt.Sprintf("ont.transfer BK->%s:%d", tokShort(to), amt)
+			s.desc = fmt.Sprintf("ont.transfer %s->%s:%d", tokShort(from.Address), tokShort(to), amt)
+			s.ontFrom, s.ontTo, s.ontAmt = from.Address, to, amt
 		case 2:
 			sts := []tokXfer{{From: from.Address, To: to, Value: big.NewInt(int64(amt) * 1000003)}}
 			m, err = world.NativeTx(nutils.OngContractAddress, 0, "transferV2", []interface{}{sts}, 0, 20000, r.next(), from.Address)
@@ -579,6 +595,31 @@ func (r *c42Run) commitSubjects(subjects []*c42Subject, nBoundary int) {
 		}
 		if okTx && s.writes && s.preOK {
 			anyOK = true
+		}
+		if s.ontAmt > 0 {
+			// balance model: a signed ONT transfer succeeds iff the sender owns the amount
+			want := s.ontFrom == r.m.Book.Address || r.ont[s.ontFrom] >= s.ontAmt
+			if want != okTx {
+				c.Fail("committed-transfer-differs-from-model", "ont-transfer", "block %d: %s has state %d; the sender owns %d ONT by the model of the committed transfers (pre-executions must not count)", r.m.Height(), s.desc, res.Notify[i].State, r.ont[s.ontFrom])
+			}
+			if okTx {
+				if s.ontFrom != r.m.Book.Address {
+					r.ont[s.ontFrom] -= s.ontAmt
+				}
+				if s.ontTo != r.m.Book.Address {
+					r.ont[s.ontTo] += s.ontAmt
+				}
+				c.Probe("party_ont_transfer_committed")
+			}
+		}
+	}
+	for _, p := range r.parties[1:] {
+		var have uint64
+		if v, err := r.m.Store.GetStorageItem(nutils.OntContractAddress, p.Address[:]); err == nil && len(v) >= 8 {
+			have = binary.LittleEndian.Uint64(v)
+		}
+		if have != r.ont[p.Address] {
+			c.Fail("committed-transfer-differs-from-model", "ont-balance", "block %d: %s owns %d ONT on the ledger, %d by the model of the committed transfers", r.m.Height(), tokShort(p.Address), have, r.ont[p.Address])
 		}
 	}
 	if anyOK && c42ContractState(pre) != c42ContractState(post) {
